@@ -905,9 +905,12 @@ func (c *Ctx) Ite(cond, a, b *Term) *Term {
 	// factor common operands of an AC operator out of both arms:
 	//   ite(c, op(S,X), op(S,Y)) = op(S, ite(c, op(X), op(Y)))      (op in xor, add, or, and)
 	// this turns "h = cond ? h^k : h" chains into flat xors/sums that cancel syntactically
-	if a.W > 1 {
+	{
 		for _, op := range [...]Op{OXor, OAdd, OOr, OAnd} {
 			if a.Op != op && b.Op != op {
+				continue
+			}
+			if a.W == 1 && op == OAdd {
 				continue
 			}
 			as, bs := []*Term{a}, []*Term{b}
@@ -1307,6 +1310,14 @@ func (c *Ctx) Add(in ...*Term) *Term {
 	}
 	if len(args) == 1 && cv == 0 {
 		return args[0]
+	}
+	if len(args) == 1 && cv != 0 {
+		// subtracting a constant whose bits are all known to be set: no borrows, just clear them
+		a := args[0]
+		k := (-cv) & m
+		if k&a.K1 == k {
+			return c.And(a, c.Const(w, ^k))
+		}
 	}
 	if len(args) == 1 {
 		a := args[0]
